@@ -8,15 +8,15 @@ open Rx Rx.Gen.MapTo
 def absMapTo (g : MapToObserver) : St1 := .mapTo g.value
 
 theorem tie_MapTo_next (g : MapToObserver) (v : Val) :
-    (MapToObserver.next g v).map (fun r => (absMapTo r.1, r.2)) = some (St1.onNext (absMapTo g) v) := by
+    (MapToObserver.next g v).map (fun r => (absMapTo r.1, r.2)) = some (Rs.lift (St1.onNext (absMapTo g) v)) := by
   rcases g with ⟨⟩ <;> rs_tie [MapToObserver.next, absMapTo, St1.onNext]
 
 theorem tie_MapTo_error (g : MapToObserver) (e : Err) :
-    (MapToObserver.error g e).map (fun r => r.2) = some (St1.onError' (absMapTo g) e).2 := by
+    (MapToObserver.error g e).map (fun r => r.2) = some ((St1.onError' (absMapTo g) e).2.map Rs.Ev.n) := by
   rcases g with ⟨⟩ <;> rs_tie [MapToObserver.error, absMapTo, St1.onError']
 
 theorem tie_MapTo_complete (g : MapToObserver) :
-    (MapToObserver.complete g).map (fun r => r.2) = some (St1.onComplete' (absMapTo g)).2 := by
+    (MapToObserver.complete g).map (fun r => r.2) = some ((St1.onComplete' (absMapTo g)).2.map Rs.Ev.n) := by
   rcases g with ⟨⟩ <;> rs_tie [MapToObserver.complete, absMapTo, St1.onComplete']
 
 
